@@ -5,6 +5,7 @@ callee contracts (stubs), every path ends in an Outcome that is checked against
 the function's postconditions by the driver.
 """
 import ast
+import os
 import re
 import z3
 from .values import *
@@ -2756,6 +2757,35 @@ class Engine:
                                         '__rebase__' in s.heap) else (rebase, len(s.calls))
         return names, fields
 
+    def check_loop_object_writes(self, pre, end, node):
+        """Soundness guard for cut loops: `havoc` forgets the locals and the receiver fields the body may write, but
+        an object other than the receiver that existed BEFORE the loop and is written by the body (attribute store,
+        stub side effect on another object, mutable cell) would keep its pre-loop value at the loop head of the next
+        iteration.  Such a loop cannot be cut soundly unless the object is re-created by the havoc (declare the local
+        holding it in LoopSpec.havoc_locals with a Spec.local_types entry)."""
+        me = self.self_ref.addr if self.self_ref is not None else None
+        for a, cell in pre.heap.items():
+            if not isinstance(a, int) or a == me:
+                continue
+            now = end.heap.get(a)
+            if now is cell or now is None:
+                continue
+            if isinstance(cell, Record) and isinstance(now, Record):
+                changed = [f for f, v in now.fields.items() if cell.fields.get(f) is not v]
+                if not changed:
+                    continue
+                what = f'{cell.cls}.{"/".join(sorted(changed)[:3])}'
+            else:
+                what = type(cell).__name__
+            msg = (f'cut loop at line {getattr(node, "lineno", "?")} writes a pre-existing object other than the '
+                   f'receiver ({what}): declare the local holding it in havoc_locals/local_types')
+            log = os.environ.get('PYVC_LOG_LOOPWRITES')
+            if log:
+                with open(log, 'a') as fh:
+                    fh.write(f'{self.spec.name}: {msg}\n')
+                return
+            raise Unsupported(msg)
+
     def fresh_like(self, s, v, label):
         v0 = v
         v = self.deref(s, v)
@@ -2885,6 +2915,7 @@ class Engine:
                             lc = self.loop_ctx(s3, entry)
                             lc.head = hsnap
                             self.use_lemmas(s3, lspec.lemmas(lc), stmt)
+                        self.check_loop_object_writes(st, s3, stmt)
                         self.oblige(s3, f'inv-preserved(loop{ordn})',
                                     lspec.invariant(self.loop_ctx(s3, entry)), stmt)
                         if lspec.variant is not None:
@@ -3096,6 +3127,7 @@ class Engine:
                 for s4, flow in self.ex_block(stmt.body, s3):
                     if flow is None or flow[0] == 'continue':
                         for_lemmas(s4, i + 1)
+                        self.check_loop_object_writes(st, s4, stmt)
                         self.oblige(s4, f'inv-preserved(loop{ordn})',
                                     lspec.invariant(self.loop_ctx(s4, entry, {'i': i + 1, 'iter': itd})), stmt)
                     elif flow[0] == 'break':
